@@ -43,7 +43,8 @@ func c02(p *core.Prog, res *core.Result) {
 		"L1: D ⊆ H where D = statement kinds whose processor's Process reaches jsonpath.GetDoc in the VTA call graph (computed) and H = kinds with an arm in inspect.PipelineStepOutputs that records an output; " +
 		"L2: for every kind in D whose field paths are client strings, the arm resolves the path's namespace (a `$mark.field` path must mark the step where the mark was set); " +
 		"L5: PipelineStepOutputs walks the statements backwards and accumulates requirements per step, so an assignment of a list that lacks the wildcard to an entry is allowed only on the path where the entry was absent (guard `_, ok := out[k]` with the bare condition ok / !ok); L3: the pipeline state (step ids, needed outputs) is computed from the statement list that is actually compiled (after the optimisers ran); " +
-		"L4: every kind whose compile arm consults StepLoadData() either advances the step id in PipelineSteps or is a start step."
+		"L4: every kind whose compile arm consults StepLoadData() either advances the step id in PipelineSteps or is a start step; " +
+		"L6: step ids are decimal strings, so no function of the analysis, the pipeline state or the compiler orders them with < <= > >= or strings.Compare (a taint from PipelineSteps/PipelineAsSteps/PipelineStepOutputs and the State fields); L7: a function of the analysis that looks into a oneof of a statement payload (has-expression, aggregation) looks into every member that can carry a field path; L8: IndexStartOptimize, which builds a replacement start statement, reads the id list of the V() it replaces."
 	res.NotDecided = []string{"that the index-start rewrite preserves answers", "count() = number of rows", "equivalence of filter spellings", "that an arm, once present, requests the right fields"}
 	res.Rule("L1", "every data-reading statement kind has a recording arm in PipelineStepOutputs", 8)
 	res.Rule("L2", "arms of kinds that take client field paths resolve the path namespace", 2)
@@ -64,6 +65,7 @@ func c02(p *core.Prog, res *core.Result) {
 		res.Fn(core.FuncKey(fi.Obj))
 	}
 	c02monotone(p, res, outs, "L5")
+	c02extra(p, res)
 	cinfo := comp.Pkg.TypesInfo
 	arms, _, ts := typeSwitchCases(cinfo, comp.Decl.Body, "isGraphStatement_Statement")
 	if ts == nil || len(arms) < 30 {
